@@ -134,6 +134,43 @@ Theorem c09_limits_force_senescence :
 Proof. exact limits_force_senescence_proof. Qed.
 Print Assumptions c09_limits_force_senescence.
 
+(* A lifetime limit, once exceeded, stays exceeded however long the clock runs
+   on (seconds, whole days, years: elapsed time is never reduced modulo
+   anything): from ANY started state whose age has reached the configured
+   (non-zero) lifetime, after EVERY further history without reset in which the
+   clock does not run backwards, the start time is still the same, the age is
+   still at or past the limit, and a check_timeouts that finds the lifecycle
+   ACTIVE (e.g. after a renewal) leaves it SENESCENT and returns False. *)
+Theorem c09_lifetime_expiry_is_permanent :
+  forall dep rate cfg ops s t0 l,
+    ph s <> Nascent -> started_at s = Some t0 ->
+    max_lifetime cfg = Some l -> l <> 0 -> l <= now s - t0 ->
+    ~ In Reset ops -> Forall forward_op ops ->
+    let s' := exec dep rate current cfg s ops in
+    l <= now s' - t0 /\ started_at s' = Some t0 /\
+    (ph s' = Active ->
+     ph (step_state dep rate current cfg s' CheckTimeouts) = Senescent /\
+     step_out dep rate current cfg s' CheckTimeouts = Ret (RBool false)).
+Proof. exact lifetime_expiry_permanent_proof. Qed.
+Print Assumptions c09_lifetime_expiry_is_permanent.
+
+(* The same for the idle limit, as long as nothing counts as activity: after
+   every history of calls other than tick / heartbeat / reset (with a clock
+   that does not run backwards) an exceeded idle limit is still exceeded, and
+   a check_timeouts that finds the lifecycle ACTIVE leaves it SENESCENT. *)
+Theorem c09_idle_expiry_persists_while_quiet :
+  forall dep rate cfg ops s t1 l,
+    ph s <> Nascent -> last_activity s = Some t1 ->
+    idle_timeout cfg = Some l -> l <> 0 -> l <= now s - t1 ->
+    Forall quiet_op ops ->
+    let s' := exec dep rate current cfg s ops in
+    l <= now s' - t1 /\ last_activity s' = Some t1 /\
+    (ph s' = Active ->
+     ph (step_state dep rate current cfg s' CheckTimeouts) = Senescent /\
+     step_out dep rate current cfg s' CheckTimeouts = Ret (RBool false)).
+Proof. exact idle_expiry_persists_proof. Qed.
+Print Assumptions c09_idle_expiry_persists_while_quiet.
+
 (* (Hayflick limit itself) a tick that exhausts the telomere of a NASCENT or
    ACTIVE lifecycle leaves it SENESCENT and reports False. *)
 Theorem c09_depletion_forces_senescence :
